@@ -42,10 +42,11 @@ VARIABLES now, dirUp, outages, restarts, running,
           pc, wNow, wOld, wNew, wCur, wFile, wId,   \* per writer
           nWrites, acked, lost, wStartTick, wEndTick, createdBy, failedCreates,
           rd, cand, solo, stale,  \* clock reading per write; writes running alone; intervals whose creation failed
-          retried                 \* writes that hit a closed file and were retried on the current one
+          retried,                \* writes that hit a closed file and were retried on the current one
+          retried2                \* ... and hit a closed file again on the retry
 vars == <<now, dirUp, outages, restarts, running, marker, file, oldFile, handles, dir, lock,
           pc, wNow, wOld, wNew, wCur, wFile, wId, nWrites, acked, lost, wStartTick, wEndTick,
-          createdBy, failedCreates, rd, cand, solo, stale, retried>>
+          createdBy, failedCreates, rd, cand, solo, stale, retried, retried2>>
 
 Idle == \A w \in Writers : pc[w] = "idle"
 OpenHandles == { h \in DOMAIN handles : handles[h].open }
@@ -67,29 +68,29 @@ Init ==
   /\ wId = [w \in Writers |-> 0]
   /\ nWrites = 0 /\ acked = {} /\ lost = {}
   /\ wStartTick = <<>> /\ wEndTick = <<>> /\ createdBy = <<>> /\ failedCreates = 0
-  /\ rd = [i \in 1..MaxWrites |-> 0] /\ cand = {} /\ solo = {} /\ stale = {} /\ retried = {}
+  /\ rd = [i \in 1..MaxWrites |-> 0] /\ cand = {} /\ solo = {} /\ stale = {} /\ retried = {} /\ retried2 = {}
 
 (******************************* environment *******************************)
 Tick == /\ now < MaxTick /\ now' = now + 1
         /\ UNCHANGED <<dirUp, outages, restarts, running, marker, file, oldFile, handles, dir, lock, pc, wNow, wOld,
-                       wNew, wCur, wFile, wId, nWrites, acked, lost, wStartTick, wEndTick, createdBy, failedCreates, rd, cand, solo, stale, retried>>
+                       wNew, wCur, wFile, wId, nWrites, acked, lost, wStartTick, wEndTick, createdBy, failedCreates, rd, cand, solo, stale, retried, retried2>>
 DirDown == /\ dirUp /\ outages < MaxOutages /\ dirUp' = FALSE /\ outages' = outages + 1
            /\ UNCHANGED <<now, restarts, running, marker, file, oldFile, handles, dir, lock, pc, wNow, wOld, wNew,
-                          wCur, wFile, wId, nWrites, acked, lost, wStartTick, wEndTick, createdBy, failedCreates, rd, cand, solo, stale, retried>>
+                          wCur, wFile, wId, nWrites, acked, lost, wStartTick, wEndTick, createdBy, failedCreates, rd, cand, solo, stale, retried, retried2>>
 DirUp == /\ ~dirUp /\ dirUp' = TRUE
          /\ UNCHANGED <<now, outages, restarts, running, marker, file, oldFile, handles, dir, lock, pc, wNow, wOld,
-                        wNew, wCur, wFile, wId, nWrites, acked, lost, wStartTick, wEndTick, createdBy, failedCreates, rd, cand, solo, stale, retried>>
+                        wNew, wCur, wFile, wId, nWrites, acked, lost, wStartTick, wEndTick, createdBy, failedCreates, rd, cand, solo, stale, retried, retried2>>
 \* Stop / Start only with no write in progress (premise of the properties)
 Stop == /\ running /\ Idle /\ restarts < MaxRestarts
         /\ handles' = CloseH(CloseH(handles, oldFile), file)
         /\ oldFile' = NULL /\ file' = NULL /\ running' = FALSE
         /\ UNCHANGED <<now, dirUp, outages, restarts, marker, dir, lock, pc, wNow, wOld, wNew, wCur, wFile, wId,
-                       nWrites, acked, lost, wStartTick, wEndTick, createdBy, failedCreates, rd, cand, solo, stale, retried>>
+                       nWrites, acked, lost, wStartTick, wEndTick, createdBy, failedCreates, rd, cand, solo, stale, retried, retried2>>
 Start == /\ ~running /\ Idle /\ dirUp
          /\ OpenFile(now) /\ file' = Len(handles) + 1 /\ marker' = Ivl(now)
          /\ running' = TRUE /\ restarts' = restarts + 1
          /\ UNCHANGED <<now, dirUp, outages, oldFile, lock, pc, wNow, wOld, wNew, wCur, wFile, wId, nWrites, acked,
-                        lost, wStartTick, wEndTick, createdBy, failedCreates, rd, cand, solo, stale, retried>>
+                        lost, wStartTick, wEndTick, createdBy, failedCreates, rd, cand, solo, stale, retried, retried2>>
 
 (********************************* a write *********************************)
 Goto(w, l) == pc' = [pc EXCEPT ![w] = l]
@@ -104,7 +105,7 @@ Begin(w) ==                      \* idle -> "clock": the call starts
   /\ cand' = IF \A v \in Writers : pc[v] = "idle" THEN {nWrites + 1} ELSE {}
   /\ Goto(w, "clock")
   /\ UEnv /\ UNCHANGED <<marker, file, oldFile, handles, dir, lock, wNow, wOld, wNew, wCur, wFile, acked, lost,
-                         wEndTick, createdBy, failedCreates, rd, solo, stale, retried>>
+                         wEndTick, createdBy, failedCreates, rd, solo, stale, retried, retried2>>
 
 ReadClock(w) ==                  \* "clock" -> p1: now := clock; oldTime := marker
   /\ pc[w] = "clock"
@@ -112,7 +113,7 @@ ReadClock(w) ==                  \* "clock" -> p1: now := clock; oldTime := mark
   /\ rd' = [rd EXCEPT ![wId[w]] = now]
   /\ Goto(w, "p1")
   /\ UEnv /\ UNCHANGED <<marker, file, oldFile, handles, dir, lock, wNew, wCur, wFile, wId, nWrites, acked, lost,
-                         wStartTick, wEndTick, createdBy, failedCreates, cand, solo, stale, retried>>
+                         wStartTick, wEndTick, createdBy, failedCreates, cand, solo, stale, retried, retried2>>
 
 CompareAndSwap(w) ==             \* p1 -> p2 (rotation won) | p20 (nothing to do / somebody else rotates)
   /\ pc[w] = "p1"
@@ -120,14 +121,14 @@ CompareAndSwap(w) ==             \* p1 -> p2 (rotation won) | p20 (nothing to do
      THEN marker' = Ivl(wNow[w]) /\ lock' = (IF UseLock THEN w ELSE lock) /\ Goto(w, "p2")
      ELSE marker' = marker /\ lock' = lock /\ Goto(w, "p20")
   /\ UEnv /\ UNCHANGED <<file, oldFile, handles, dir, wNow, wOld, wNew, wCur, wFile, wId, nWrites, acked, lost,
-                         wStartTick, wEndTick, createdBy, failedCreates, rd, cand, solo, stale, retried>>
+                         wStartTick, wEndTick, createdBy, failedCreates, rd, cand, solo, stale, retried, retried2>>
 
 CloseOlder(w) ==                 \* p2 -> p3: close the file of two rotations ago
   /\ pc[w] = "p2"
   /\ handles' = CloseH(handles, oldFile) /\ oldFile' = NULL
   /\ Goto(w, "p3")
   /\ UEnv /\ UNCHANGED <<marker, file, dir, lock, wNow, wOld, wNew, wCur, wFile, wId, nWrites, acked, lost, wStartTick,
-                         wEndTick, createdBy, failedCreates, rd, cand, solo, stale, retried>>
+                         wEndTick, createdBy, failedCreates, rd, cand, solo, stale, retried, retried2>>
 
 CreateAndLoad(w) ==              \* p3 -> p4 (created; cur := file) | p20 (creation failed, report, return)
   /\ pc[w] = "p3"
@@ -142,26 +143,26 @@ CreateAndLoad(w) ==              \* p3 -> p4 (created; cur := file) | p20 (creat
           /\ lock' = (IF lock = w THEN NULL ELSE lock)
           /\ Goto(w, "p20") /\ UNCHANGED <<handles, dir, wNew, wCur, createdBy>>
   /\ UEnv /\ UNCHANGED <<marker, file, oldFile, wNow, wOld, wFile, wId, nWrites, acked, lost, wStartTick, wEndTick,
-                         rd, cand, solo, retried>>
+                         rd, cand, solo, retried, retried2>>
 
 PublishOld(w) ==                 \* p4 -> p5
   /\ pc[w] = "p4" /\ oldFile' = wCur[w] /\ Goto(w, "p5")
   /\ UEnv /\ UNCHANGED <<marker, file, handles, dir, lock, wNow, wOld, wNew, wCur, wFile, wId, nWrites, acked, lost,
-                         wStartTick, wEndTick, createdBy, failedCreates, rd, cand, solo, stale, retried>>
+                         wStartTick, wEndTick, createdBy, failedCreates, rd, cand, solo, stale, retried, retried2>>
 PublishNew(w) ==                 \* p5 -> p6
   /\ pc[w] = "p5" /\ file' = wNew[w] /\ Goto(w, "p6")
   /\ UEnv /\ UNCHANGED <<marker, oldFile, handles, dir, lock, wNow, wOld, wNew, wCur, wFile, wId, nWrites, acked, lost,
-                         wStartTick, wEndTick, createdBy, failedCreates, rd, cand, solo, stale, retried>>
+                         wStartTick, wEndTick, createdBy, failedCreates, rd, cand, solo, stale, retried, retried2>>
 PublishTime(w) ==                \* p6 -> p7: the pinned tree stores the marker again (it may move backwards)
   /\ pc[w] = "p6"
   /\ marker' = IF UseLock THEN marker ELSE Ivl(wNow[w])
   /\ Goto(w, "p7")
   /\ UEnv /\ UNCHANGED <<file, oldFile, handles, dir, lock, wNow, wOld, wNew, wCur, wFile, wId, nWrites, acked, lost,
-                         wStartTick, wEndTick, createdBy, failedCreates, rd, cand, solo, stale, retried>>
+                         wStartTick, wEndTick, createdBy, failedCreates, rd, cand, solo, stale, retried, retried2>>
 EndRotate(w) ==                  \* p7 -> p20: unlock, spawn cleanup, return from rotate
   /\ pc[w] = "p7" /\ lock' = (IF lock = w THEN NULL ELSE lock) /\ Goto(w, "p20")
   /\ UEnv /\ UNCHANGED <<marker, file, oldFile, handles, dir, wNow, wOld, wNew, wCur, wFile, wId, nWrites, acked, lost,
-                         wStartTick, wEndTick, createdBy, failedCreates, rd, cand, solo, stale, retried>>
+                         wStartTick, wEndTick, createdBy, failedCreates, rd, cand, solo, stale, retried, retried2>>
 
 LoadForWrite(w) ==               \* p20 -> p21 | p22 (no file: dropped silently, as after Stop)
   /\ pc[w] = "p20"
@@ -169,20 +170,21 @@ LoadForWrite(w) ==               \* p20 -> p21 | p22 (no file: dropped silently,
   /\ IF file = NULL THEN Goto(w, "p22") /\ lost' = lost \cup {wId[w]}
      ELSE Goto(w, "p21") /\ lost' = lost
   /\ UEnv /\ UNCHANGED <<marker, file, oldFile, handles, dir, lock, wNow, wOld, wNew, wCur, wId, nWrites, acked,
-                         wStartTick, wEndTick, createdBy, failedCreates, rd, cand, solo, stale, retried>>
+                         wStartTick, wEndTick, createdBy, failedCreates, rd, cand, solo, stale, retried, retried2>>
 
 DoWrite(w) ==                    \* p21 -> p22 (landed, or lost on a closed file) | p21 (retry on the current file)
   /\ pc[w] = "p21"
   /\ LET h == wFile[w] IN
      IF handles[h].open
      THEN /\ dir' = [dir EXCEPT ![handles[h].name] = Append(@, wId[w])]
-          /\ Goto(w, "p22") /\ UNCHANGED <<lost, wFile, retried>>
+          /\ Goto(w, "p22") /\ UNCHANGED <<lost, wFile, retried, retried2>>
      ELSE IF Retry
           THEN IF file = NULL
-               THEN Goto(w, "p22") /\ lost' = lost \cup {wId[w]} /\ UNCHANGED <<dir, wFile, retried>>
+               THEN Goto(w, "p22") /\ lost' = lost \cup {wId[w]} /\ UNCHANGED <<dir, wFile, retried, retried2>>
                ELSE /\ wFile' = [wFile EXCEPT ![w] = file] /\ retried' = retried \cup {wId[w]}
+                    /\ retried2' = IF wId[w] \in retried THEN retried2 \cup {wId[w]} ELSE retried2
                     /\ Goto(w, "p21") /\ UNCHANGED <<dir, lost>>
-          ELSE Goto(w, "p22") /\ lost' = lost \cup {wId[w]} /\ UNCHANGED <<dir, wFile, retried>>
+          ELSE Goto(w, "p22") /\ lost' = lost \cup {wId[w]} /\ UNCHANGED <<dir, wFile, retried, retried2>>
   /\ UEnv /\ UNCHANGED <<marker, file, oldFile, handles, lock, wNow, wOld, wNew, wCur, wId, nWrites, acked,
                          wStartTick, wEndTick, createdBy, failedCreates, rd, cand, solo, stale>>
 
@@ -193,7 +195,7 @@ Return(w) ==                     \* p22 -> idle
   /\ cand' = cand \ {wId[w]}
   /\ Goto(w, "idle")
   /\ UEnv /\ UNCHANGED <<marker, file, oldFile, handles, dir, lock, wNow, wOld, wNew, wCur, wFile, wId, nWrites, lost,
-                         wStartTick, createdBy, failedCreates, rd, stale, retried>>
+                         wStartTick, createdBy, failedCreates, rd, stale, retried, retried2>>
 
 WriterStep(w) == Begin(w) \/ ReadClock(w) \/ CompareAndSwap(w) \/ CloseOlder(w) \/ CreateAndLoad(w)
                  \/ PublishOld(w) \/ PublishNew(w) \/ PublishTime(w) \/ EndRotate(w)
